@@ -5,7 +5,7 @@ out="$1"; shift
 wt=$(mktemp -d /tmp/mx.XXXXXX); rmdir "$wt"
 git -C /repo worktree add -q --detach "$wt" HEAD || exit 2
 export VERIF_REPO="$wt"
-export VERIF_C07_RUNS=40000 VERIF_C07_RACE_RUNS=6000 VERIF_C10_RUNS=40000 VERIF_C10_RACE_RUNS=0 VERIF_C11_RUNS=40000 VERIF_C11_RACE_RUNS=4000 VERIF_C19_RUNS=40000 VERIF_C19_RACE_RUNS=5000 VERIF_C04_RECORDS=1600 VERIF_C04_SHORT=48
+export VERIF_C07_RUNS=16000 VERIF_C07_RACE_RUNS=3000 VERIF_C10_RUNS=20000 VERIF_C10_RACE_RUNS=0 VERIF_C11_RUNS=20000 VERIF_C11_RACE_RUNS=2000 VERIF_C19_RUNS=20000 VERIF_C19_RACE_RUNS=3000 VERIF_C04_RECORDS=800 VERIF_C04_SHORT=32
 echo "| change | C04 | C07 | C10 | C11 | C19 |" > "$out"; echo "|---|---|---|---|---|---|" >> "$out"
 for p in "$@"; do
   name=$(echo "$p" | sed 's|.*/seeded/||; s|.*/mutants/||; s|/patch.diff||; s|.diff||')
